@@ -13,6 +13,7 @@ import os
 import random
 import re
 import subprocess
+import threading
 import time
 from vlib import core
 from vlib.core import cz, cbool, clist
@@ -322,23 +323,42 @@ def classify(res, records, codes):
                                    detail=json.dumps(replay)[:3000]))
 
 
-def correspond(res, n, candidates=()):
+def correspond(res, n, deep):
     rng = random.Random(res.seed * 7919 + 16)
     corpus = json.load(open(core.VERIF + '/corpus/C16.json'))
-    jobs = list(candidates)
-    jobs += [dict(c, mode='replay') for c in corpus]
+    jobs = [dict(c, mode='replay') for c in corpus]
     jobs += [dict(j, mode='enumerate', max_leaves=300) for j in ENUM_QUICK]
     jobs += [dict(j, mode='bounded', max_leaves=1500) for j in BOUNDED_QUICK]
     if res.tier != 'quick':
         jobs += [dict(j, mode='enumerate', max_leaves=6000) for j in ENUM_THOROUGH]
         jobs += [dict(j, mode='bounded', max_leaves=8000) for j in BOUNDED_THOROUGH]
     jobs += gen_jobs(rng, n)
-    out = core.run_driver('c16_driver.py', dict(jobs=jobs), timeout=3000)
+    # the model follows the code: while the driver explores schedules of the real classes, Coq looks
+    # for a failing schedule of the program table compiled on this run (deeper when an obligation is
+    # broken); its candidates are then replayed on the real classes, and only what fails THERE is
+    # reported as a concrete failing input
+    box = {}
+
+    def searcher():
+        try:
+            box['found'] = search_generated(res, deep)
+        except BaseException as exc:
+            box['error'] = exc
+    th = threading.Thread(target=searcher)
+    th.start()
+    try:
+        out = core.run_driver('c16_driver.py', dict(jobs=jobs), timeout=3000)
+    finally:
+        th.join()
+    if 'error' in box:
+        raise box['error']
     records = out['records']
-    for r in records:
-        if jobs[r['job']].get('origin'):
-            r['origin'] = jobs[r['job']]['origin']
-            r['requested'] = jobs[r['job']]['sched']
+    if box['found']:
+        out2 = core.run_driver('c16_driver.py', dict(jobs=box['found']), timeout=600)
+        for r in out2['records']:
+            r['origin'] = 'search'
+            r['requested'] = box['found'][r['job']]['sched']
+        records = out2['records'] + records
     terms = [to_coq(r) for r in records]
     codes, _ = core.coq_eval('C16', HEADER, core.chunks(terms, 200))
     classify(res, records, codes)
@@ -358,7 +378,8 @@ def correspond(res, n, candidates=()):
                 rule='schedules of 2-4 processes (main thread + feeder thread Queue._feed each) running scripts of 1-4 '
                      'put/get/task_done/join calls on the real Queue / JoinableQueue / SimpleQueue (exhaustive DFS for the '
                      'listed small configurations, ALL schedules with at most K preemptions for the preemption-bounded ones, seeded random otherwise; corpus first); non-trivial = a message was '
-                     'received from the pipe and two logical threads stepped; distinct by (kind, maxsize, scripts, schedule)',
+                     'received from the pipe and two logical threads stepped; distinct by (kind, maxsize, scripts, schedule); '
+                     'schedules found by the Coq search on the generated program table (c16_search) are replayed first',
                 c16_run_ends=ends, c16_kinds=kinds, c16_call_histogram=hist,
                 c16_steps_total=sum(len(r['sched']) for r in records),
                 c16_messages_received=sum(1 for r in records for e in r['events'] if e[1] == 100 and e[2] == 4),
@@ -376,10 +397,7 @@ def run(res):
     n = 240 if res.tier == 'quick' else 15000
     if res.broken:
         n = max(n, 2400)
-    # the model follows the code: look for a failing schedule on the program table compiled on this
-    # run (deeper when an obligation is broken); candidates are replayed on the real classes first
-    candidates = search_generated(res, deep=bool(res.broken) or res.tier != 'quick')
-    correspond(res, n, candidates)
+    correspond(res, n, deep=bool(res.broken) or res.tier != 'quick')
     res.assumptions += [
         'semaphore primitive as in C17 (Model/SemProg.v); threading.Condition modelled by harness/c16_fakes.TCond',
         'the pipe is a list of whole messages (C13 + reader/writer locks); send never blocks; pickling not modelled (messages are integers)',
